@@ -194,6 +194,14 @@ struct MapStream : Family {
 		size_t consumed = 0;
 		std::vector<uint8_t> bytes = ref::encodeMap(m, nullptr, &consumed);
 		std::string backend = plan.envs("backend", "mem"), wb = plan.envs("wbackend", "dyn");
+		// a second, different map for the interleaved read / write
+		ref::RMap m2 = m;
+		for (auto& t : m2.tiles) t = ~t;
+		for (auto& sname : m2.srcs) if (!sname.name.empty()) sname.name[0] = sname.name[0] == 'q' ? 'r' : 'q';
+		m2.tag = m.tag ^ 1 ? m.tag : m.tag + 1; m2.trailing.clear();
+		std::vector<uint8_t> bytes2 = backend == "sim" || wb == "sim" ? ref::encodeMap(m2) : std::vector<uint8_t>();
+		std::string nestedProblem;
+		bool nestedRan = false;
 		Map map;
 		uint64_t posAfter = 0;
 		std::string what;
@@ -201,7 +209,21 @@ struct MapStream : Family {
 		Out o = callLib(plan, [&] {
 			if (backend == "path") { disk::put("in.map", bytes); map = Map::ReadMap(std::string("in.map")); posAfter = consumed; return; } // filename overload: consumption not observable
 			if (backend == "rvalue") { map = Map::ReadMap(Stream::MemoryReader(bytes.data(), bytes.size())); posAfter = consumed; return; } // rvalue-reference overload
-			box = openBackend(backend, bytes, "in", plan.seed); map = Map::ReadMap(*box.rd); posAfter = box.rd->Position() - box.start;
+			box = openBackend(backend, bytes, "in", plan.seed);
+			if (box.sim) {
+				// interleaving at the stream seam: inside one of this read's callbacks another map (other tiles, other names) is read from
+				// memory to completion; both results must be right
+				box.sim->interleaveAtCall = 1 + mix64(plan.seed, 0x1e) % 9;
+				box.sim->interleave = [&] {
+					Stream::MemoryReader r2(bytes2.data(), bytes2.size());
+					Map other = Map::ReadMap(r2);
+					std::string d2 = compareMap(other, m2, true);
+					if (!d2.empty()) nestedProblem = d2;
+					nestedRan = true;
+				};
+			}
+			map = Map::ReadMap(*box.rd); posAfter = box.rd->Position() - box.start;
+			if (box.sim && !box.sim->interleaveError.empty()) nestedProblem = "it failed: " + box.sim->interleaveError;
 		}, &what);
 		// C06 quantifies over what the reader ACCEPTS. A reader that refuses (with an ordinary error) an input no writer of this library
 		// produces - tile-group dimensions whose mathematical product exceeds 32 bits, 500+ tileset sources or 65535+ entries in a
@@ -209,6 +231,8 @@ struct MapStream : Family {
 		bool exotic = false;
 		for (auto& g : m.groups) if (static_cast<uint64_t>(g.w) * g.h > 0xFFFFFFFFull) exotic = true;
 		if (m.srcs.size() > 100 || m.mappings.size() >= 65535 || m.tiles.size() > 250000) exotic = true;
+		if (nestedRan) ctx.count("probe.second_operation_interleaved");
+		if (!nestedProblem.empty()) ctx.fail("C06.fields-equal", "a second map read interleaved into this read (inside one of its stream callbacks): " + nestedProblem);
 		if (o == ErrStd && exotic) { ctx.count("probe.exotic_input_refused_by_the_reader"); ctx.nontrivial = true; return; }
 		if (o != OkOut) ctx.fail("C06.fields-equal", "a well-formed map (" + std::to_string(bytes.size()) + " bytes, backend " + backend + ") was not read: " + what);
 		if (posAfter != consumed) ctx.fail(m.trailing.empty() ? "C06.rewrite-equals-consumed" : "C06.trailing-ignored", "reader consumed " + std::to_string(posAfter) + " bytes; the map occupies " + std::to_string(consumed) + " (" + std::to_string(m.trailing.size()) + " trailing bytes follow)");
@@ -351,6 +375,11 @@ struct MapDamage : Family {
 		size_t consumed = 0;
 		std::vector<uint8_t> valid = saved ? ref::encodeSavedGame(m, u, &fields, &consumed) : ref::encodeMap(m, &fields, &consumed);
 		size_t headerLen = saved ? valid.size() : consumed;
+		// a second valid input of the same kind (same embedded map, other unit-block sizes) for the interleaved read
+		std::vector<uint8_t> valid2;
+		if (saved) { ref::SavedUnits u2 = u; u2.n1 = u.n1 + 3; u2.n2 = u.n2 + 5; u2.seed = u.seed ^ 0x55aa; valid2 = ref::encodeSavedGame(m, u2); }
+		else if (valid.size() < (1u << 16)) valid2 = valid;
+		bool nestedRan = false, nestedOk = true;
 		bool thorough = plan.envu("thorough", 0) != 0;
 		std::vector<Line> variants;
 		if (plan.damage.empty()) variants.push_back(mkline("damage", "none"));
@@ -402,8 +431,15 @@ struct MapDamage : Family {
 				if (backendName == "path") { disk::put("d.in", bytes); map = saved ? Map::ReadSavedGame(std::string("d.in")) : Map::ReadMap(std::string("d.in")); return; } // filename overloads
 				if (backendName == "rvalue") { map = saved ? Map::ReadSavedGame(Stream::MemoryReader(bytes.data(), bytes.size())) : Map::ReadMap(Stream::MemoryReader(bytes.data(), bytes.size())); return; }
 				ReaderBox b = openBackend(backend, bytes, "d", 1);
+				if (b.sim && !valid2.empty()) {
+					// interleaving at the stream seam: another, valid input of the same kind is read to completion inside one of this read's
+					// callbacks (a scratch object shared between the two calls would be resized under the first one's feet)
+					b.sim->interleaveAtCall = 1 + mix64(plan.seed, vi) % 24;
+					b.sim->interleave = [&] { Stream::MemoryReader r2(valid2.data(), valid2.size()); Map other = saved ? Map::ReadSavedGame(r2) : Map::ReadMap(r2); nestedOk = compareMap(other, m, !saved).empty(); nestedRan = true; };
+				}
 				map = saved ? Map::ReadSavedGame(*b.rd) : Map::ReadMap(*b.rd);
 			}, &what);
+			if (nestedRan) { ctx.count("probe.second_operation_interleaved"); nestedRan = false; if (!nestedOk) ctx.fail(saved ? "C07.saved-equals-map" : "C07.self-consistent", "a valid " + std::string(saved ? "saved game" : "map") + " read interleaved into the read of a damaged one came back wrong"); }
 			++calls;
 			if (o == ErrOther) ctx.fail("C07.ordinary-error", std::string(saved ? "ReadSavedGame" : "ReadMap") + " failed with something that is not a std::exception");
 			uint64_t vh = mix64(hashstr(dmg.verb), o);
